@@ -285,7 +285,7 @@ theorem C18_escape_iff (areas inf : IRaster) (N : Nat) (q : Quarantine) (hq : QF
       intro c hc hi
       have ha : areas.at c.1 c.2 ≠ 0 := fun h => hex ⟨c, hc, hi, h⟩
       exact ⟨ha, hlook c hc hi ha⟩
-    obtain ⟨acc', hloop, _⟩ := escapeLoop_contained q inf areas cells none hok
+    obtain ⟨acc', hloop⟩ := escapeLoop_no_escape q inf areas cells none hok
     refine ⟨{ q with infos := q.infos.set step (infoOf (some acc')) }, infoOf (some acc'), ?_, ⟨hq.table, by simp [hq.len]⟩, ⟨rfl, rfl, rfl⟩, ?_, ?_, ?_, ?_, ?_⟩
     · simp only [Quarantine.action, hloop, hlen, if_true]
     · simp only [List.getElem?_set_self hlen]
@@ -301,104 +301,186 @@ theorem C18_escape_iff (areas inf : IRaster) (N : Nat) (q : Quarantine) (hq : QF
       rw [hf] at h; cases h
     · intro j hj; simp only [List.getElem?_set_ne (Ne.symm hj)]
 
-/-- No escape, some infected listed cell, integer resolutions: the report is `(d, dir)` with `dir`
-    enabled, attained by an infected cell as the distance to side `dir` of the bounding box of its
-    own area, and not larger than the distance of any infected cell to any enabled side of its
-    own area's box. (`intMax` is the start value `numeric_limits<int>::max()` of the search.) -/
-theorem C18_nearest (areas inf : IRaster) (nsI ewI : Int) (hns : 0 ≤ nsI) (hew : 0 ≤ ewI)
-    (hbn : areas.rows * nsI < intMax) (hbe : areas.cols * ewI < intMax)
-    (N : Nat) (q : Quarantine) (hq : QFrom q areas N) (hqns : q.ns = (nsI : Rat)) (hqew : q.ew = (ewI : Rat))
+/-- No escape, some infected listed cell, ANY non-negative rational resolutions: the report is
+    `(lround x, dir)` where `x` is the exact distance of an infected cell `c` to the enabled side
+    `dir` of the bounding box `b` of its own area, and `x` is minimal over all infected cells and
+    all enabled sides of their own areas' boxes. Among several such pairs the reported one is the
+    first in scan order (cells in list order, sides in the order N, S, E, W): in the list of all
+    candidates everything before it is strictly farther, everything after it at least as far.
+    Only the reported distance is rounded; no rounded value takes part in a comparison.
+    (`dblMax` is the start value `numeric_limits<double>::max()` of the search.) -/
+theorem C18_nearest (areas inf : IRaster) (N : Nat) (q : Quarantine) (hq : QFrom q areas N)
+    (hns : 0 ≤ q.ns) (hew : 0 ≤ q.ew)
+    (hbn : (areas.rows : Rat) * q.ns < (dblMax : Rat)) (hbe : (areas.cols : Rat) * q.ew < (dblMax : Rat))
     (hen : ∃ d, q.dirs.enabled d = true)
     (cells : List Cell) (hin : ∀ c ∈ cells, InRange areas.rows areas.cols c)
     (hnn : ∀ c ∈ cells, 0 ≤ areas.at c.1 c.2) (step : Nat) (hstep : step < N)
     (hno : ¬ ∃ c ∈ cells, inf.at c.1 c.2 ≠ 0 ∧ areas.at c.1 c.2 = 0)
     (hsome : ∃ c ∈ cells, inf.at c.1 c.2 ≠ 0) :
-    ∃ q' d dir, q.action cells inf areas step = .ok q' ∧
-      q'.infos[step]? = some ⟨false, .val d, dir⟩ ∧
+    ∃ q' c b dir, q.action cells inf areas step = .ok q' ∧
+      c ∈ cells ∧ inf.at c.1 c.2 ≠ 0 ∧ specAreaBox areas (areas.at c.1 c.2) = some b ∧
       q.dirs.enabled dir = true ∧
-      (∃ c ∈ cells, inf.at c.1 c.2 ≠ 0 ∧ ∃ b, specAreaBox areas (areas.at c.1 c.2) = some b ∧
-          sideDist b nsI ewI c dir = d) ∧
-      (∀ c ∈ cells, inf.at c.1 c.2 ≠ 0 → ∀ b, specAreaBox areas (areas.at c.1 c.2) = some b →
-          ∀ d', q.dirs.enabled d' = true → d ≤ sideDist b nsI ewI c d') ∧
-      nearestOK inf areas cells q.dirs nsI ewI d dir = true := by
-  -- facts about an infected listed cell: positive id, table box = definitional box, bounded distances
-  have hcell : ∀ c ∈ cells, inf.at c.1 c.2 ≠ 0 → ∃ b,
-      lookupBox q.table (areas.at c.1 c.2) = some b ∧ specAreaBox areas (areas.at c.1 c.2) = some b ∧
-      ∀ d', q.dirs.enabled d' = true → sideDist b nsI ewI c d' < intMax := by
+      q'.infos[step]? = some ⟨false, .val (lround (sideDist b q.ns q.ew c dir)), dir⟩ ∧
+      (∀ c' ∈ cells, inf.at c'.1 c'.2 ≠ 0 → ∀ b', specAreaBox areas (areas.at c'.1 c'.2) = some b' →
+          ∀ d', q.dirs.enabled d' = true → sideDist b q.ns q.ew c dir ≤ sideDist b' q.ns q.ew c' d') ∧
+      (∃ pre post, nearestCandidates inf areas cells q.dirs q.ns q.ew =
+            pre ++ (sideDist b q.ns q.ew c dir, dir) :: post ∧
+          (∀ x ∈ pre, sideDist b q.ns q.ew c dir < x.1) ∧
+          (∀ y ∈ post, sideDist b q.ns q.ew c dir ≤ y.1)) ∧
+      nearestOK inf areas cells q.dirs q.ns q.ew (lround (sideDist b q.ns q.ew c dir)) dir = true := by
+  -- an infected listed cell: positive id, table box = definitional box, every side below DBL_MAX
+  have mul_bound : ∀ (k r : Int) (res : Rat), 0 ≤ res → k ≤ r → (r : Rat) * res < (dblMax : Rat) →
+      (k : Rat) * res < (dblMax : Rat) := by
+    intro k r res h0 hk hr
+    have h1 : (k : Rat) ≤ (r : Rat) := by exact_mod_cast hk
+    have h2 := Rat.mul_le_mul_of_nonneg_right h1 h0
+    grind
+  have hcell : ∀ c ∈ cells, inf.at c.1 c.2 ≠ 0 → CellOK q areas c := by
     intro c hc hi
     have ha : areas.at c.1 c.2 ≠ 0 := fun h => hno ⟨c, hc, hi, h⟩
     have hpos : 0 < areas.at c.1 c.2 := by have := hnn c hc; omega
     obtain ⟨b, hb, hsb, g1, g2, g3, g4, g5, g6, g7, g8⟩ := own_area_box areas c (hin c hc) hpos
-    refine ⟨b, by rw [hq.table]; exact hb, hsb, ?_⟩
-    have mul_bound : ∀ (x r res : Int), 0 ≤ res → 0 ≤ x → x < r → r * res < intMax → x * res < intMax := by
-      intro x r res h0 _ hx hr
-      have := Int.mul_le_mul_of_nonneg_right (Int.le_of_lt hx) h0
-      omega
-    intro d' _
+    refine ⟨ha, b, by rw [hq.table]; exact hb, hsb, ?_⟩
+    intro d'
     cases d' with
-    | N => exact mul_bound _ areas.rows nsI hns (by omega) (by omega) hbn
-    | S => exact mul_bound _ areas.rows nsI hns (by omega) (by omega) hbn
-    | E => exact mul_bound _ areas.cols ewI hew (by omega) (by omega) hbe
-    | W => exact mul_bound _ areas.cols ewI hew (by omega) (by omega) hbe
-    | none => simp [sideDist, intMax]
-  have hok : ∀ c ∈ cells, inf.at c.1 c.2 ≠ 0 →
-      areas.at c.1 c.2 ≠ 0 ∧ lookupBox q.table (areas.at c.1 c.2) ≠ none := by
-    intro c hc hi
-    obtain ⟨b, hb, _⟩ := hcell c hc hi
-    exact ⟨fun h => hno ⟨c, hc, hi, h⟩, by rw [hb]; simp⟩
-  obtain ⟨acc', hloop, hsrc, _, hmin⟩ := escapeLoop_contained q inf areas cells none hok
+    | N => exact mul_bound _ areas.rows q.ns hns (by omega) hbn
+    | S => exact mul_bound _ areas.rows q.ns hns (by omega) hbn
+    | E => exact mul_bound _ areas.cols q.ew hew (by omega) hbe
+    | W => exact mul_bound _ areas.cols q.ew hew (by omega) hbe
+    | none => exact dblMax_pos
+  have hloop := escapeLoop_contained q inf areas hen cells none hcell
   have hlen : step < q.infos.length := by rw [hq.len]; exact hstep
-  -- the running minimum was set by some infected cell
+  -- membership in the candidate list, both ways
+  have hmem_of : ∀ c' ∈ cells, inf.at c'.1 c'.2 ≠ 0 → ∀ b', specAreaBox areas (areas.at c'.1 c'.2) = some b' →
+      ∀ d', q.dirs.enabled d' = true →
+      (sideDist b' q.ns q.ew c' d', d') ∈ nearestCandidates inf areas cells q.dirs q.ns q.ew := by
+    intro c' hc' hi' b' hb' d' hd'
+    unfold nearestCandidates
+    refine List.mem_flatMap.mpr ⟨c', ?_, ?_⟩
+    · exact List.mem_filter.mpr ⟨hc', by simpa using hi'⟩
+    · rw [hb']
+      refine List.mem_map.mpr ⟨d', List.mem_filter.mpr ⟨?_, hd'⟩, rfl⟩
+      cases d' <;> simp [fourDirs, Dirs.enabled] at hd' ⊢
+  have hmem_to : ∀ m ∈ nearestCandidates inf areas cells q.dirs q.ns q.ew,
+      ∃ c ∈ cells, inf.at c.1 c.2 ≠ 0 ∧ ∃ b, specAreaBox areas (areas.at c.1 c.2) = some b ∧
+        q.dirs.enabled m.2 = true ∧ m = (sideDist b q.ns q.ew c m.2, m.2) := by
+    intro m hm
+    unfold nearestCandidates at hm
+    obtain ⟨c, hc, hmc⟩ := List.mem_flatMap.mp hm
+    have hc' := List.mem_filter.mp hc
+    have hi : inf.at c.1 c.2 ≠ 0 := by simpa using hc'.2
+    obtain ⟨_, b, _, hsb, _⟩ := hcell c hc'.1 hi
+    rw [hsb] at hmc
+    obtain ⟨d, hd, rfl⟩ := List.mem_map.mp hmc
+    exact ⟨c, hc'.1, hi, b, hsb, (List.mem_filter.mp hd).2, rfl⟩
+  -- the candidate list is not empty
   obtain ⟨c1, hc1, hi1⟩ := hsome
-  obtain ⟨b1, hl1, _, _⟩ := hcell c1 hc1 hi1
-  obtain ⟨m', hm', _⟩ := hmin c1 hc1 hi1 b1 hl1
-  rcases hsrc with hnone | ⟨c0, hc0, hi0, b0, hl0, hacc⟩
-  · rw [hnone] at hm'; cases hm'
-  · obtain ⟨b0', hl0', hs0, hbd0⟩ := hcell c0 hc0 hi0
-    rw [hl0] at hl0'; cases hl0'
-    rw [hqns, hqew] at hacc
-    have hcd0 := closestDirection_spec q.dirs nsI ewI c0 b0 hen hbd0
-    have hle : ∀ c ∈ cells, inf.at c.1 c.2 ≠ 0 → ∀ b, specAreaBox areas (areas.at c.1 c.2) = some b →
-        ∀ d', q.dirs.enabled d' = true →
-        (closestDirection q.dirs (nsI : Rat) (ewI : Rat) c0.1 c0.2 b0).1 ≤ sideDist b nsI ewI c d' := by
-      intro c hc hi b hsb d' hd'
-      obtain ⟨b', hl', hs', hbd'⟩ := hcell c hc hi
-      rw [hsb] at hs'; cases hs'
-      obtain ⟨m2, hm2, hle2⟩ := hmin c hc hi b hl'
-      rw [hacc] at hm2; cases hm2
-      rw [hqns, hqew] at hle2
-      have := (closestDirection_spec q.dirs nsI ewI c b hen hbd').2.2 d' hd'
-      omega
-    refine ⟨{ q with infos := q.infos.set step (infoOf (some acc')) }, _, _, ?_, ?_, hcd0.1, ?_, hle, ?_⟩
+  obtain ⟨_, b1, _, hsb1, _⟩ := hcell c1 hc1 hi1
+  obtain ⟨d1, hd1⟩ := hen
+  have hm1 := hmem_of c1 hc1 hi1 b1 hsb1 d1 hd1
+  cases hL : nearestCandidates inf areas cells q.dirs q.ns q.ew with
+  | nil => rw [hL] at hm1; simp at hm1
+  | cons x xs =>
+    rw [hL, firstMin_none_cons] at hloop
+    obtain ⟨pre, post, hsplit, hpre, hpost⟩ := foldl_better_split xs x
+    generalize xs.foldl better x = m at hloop hsplit hpre hpost
+    have hmL : m ∈ nearestCandidates inf areas cells q.dirs q.ns q.ew := by
+      rw [hL, hsplit]; simp
+    obtain ⟨c, hc, hi, b, hsb, hdir, hm⟩ := hmem_to m hmL
+    have hm1' : m.1 = sideDist b q.ns q.ew c m.2 := by rw [hm]
+    have hmin : ∀ y ∈ nearestCandidates inf areas cells q.dirs q.ns q.ew, m.1 ≤ y.1 := by
+      intro y hy
+      rw [hL, hsplit] at hy
+      rcases List.mem_append.mp hy with h | h
+      · exact Rat.le_of_lt (hpre y h)
+      · rcases List.mem_cons.mp h with rfl | h
+        · exact Rat.le_refl
+        · exact hpost y h
+    have hle : ∀ c' ∈ cells, inf.at c'.1 c'.2 ≠ 0 → ∀ b', specAreaBox areas (areas.at c'.1 c'.2) = some b' →
+        ∀ d', q.dirs.enabled d' = true → sideDist b q.ns q.ew c m.2 ≤ sideDist b' q.ns q.ew c' d' := by
+      intro c' hc' hi' b' hb' d' hd'
+      rw [← hm1']
+      exact hmin _ (hmem_of c' hc' hi' b' hb' d' hd')
+    refine ⟨{ q with infos := q.infos.set step (infoOf (some (some m))) }, c, b, m.2, ?_, hc, hi, hsb, hdir, ?_,
+      hle, ⟨pre, post, ?_, ?_, ?_⟩, ?_⟩
     · simp only [Quarantine.action, hloop, hlen, if_true]
-    · simp only [List.getElem?_set_self hlen, hacc, infoOf]
-    · exact ⟨c0, hc0, hi0, b0, hs0, hcd0.2.1.symm⟩
+    · simp only [List.getElem?_set_self hlen, infoOf, hm1']
+    · rw [← hm1', ← hsplit]
+    · rw [← hm1']; exact hpre
+    · rw [← hm1']; exact hpost
     · simp only [nearestOK, Bool.and_eq_true, List.any_eq_true, List.all_eq_true, presentCells,
         List.mem_filter, decide_eq_true_eq]
-      refine ⟨⟨hcd0.1, c0, ⟨hc0, hi0⟩, ?_⟩, ?_⟩
-      · rw [hs0]; simp only [beq_iff_eq]; exact hcd0.2.1.symm
-      · rintro c ⟨hc, hi⟩
-        obtain ⟨b, _, hsb, _⟩ := hcell c hc hi
-        rw [hsb]
-        simp only [fourDirs, List.all_cons, List.all_nil, Bool.and_true, Bool.and_eq_true,
-          Bool.or_eq_true, Bool.not_eq_true', decide_eq_true_eq]
-        have key : ∀ d', q.dirs.enabled d' = false ∨
-            (closestDirection q.dirs (nsI : Rat) (ewI : Rat) c0.1 c0.2 b0).1 ≤ sideDist b nsI ewI c d' := by
-          intro d'
-          cases hd' : q.dirs.enabled d' with
-          | false => exact Or.inl rfl
-          | true => exact Or.inr (hle c hc hi b hsb d' hd')
-        exact ⟨key .N, key .S, key .E, key .W⟩
+      refine ⟨hdir, c, ⟨hc, hi⟩, ?_⟩
+      rw [hsb]
+      simp only [beq_self_eq_true, Bool.true_and, List.all_eq_true, List.mem_filter, decide_eq_true_eq]
+      rintro c' ⟨hc', hi'⟩
+      obtain ⟨_, b', _, hsb', _⟩ := hcell c' hc' hi'
+      rw [hsb']
+      simp only [fourDirs, List.all_cons, List.all_nil, Bool.and_true, Bool.and_eq_true,
+        Bool.or_eq_true, Bool.not_eq_true', decide_eq_true_eq]
+      have key : ∀ d', q.dirs.enabled d' = false ∨
+          sideDist b q.ns q.ew c m.2 ≤ sideDist b' q.ns q.ew c' d' := by
+        intro d'
+        cases hd' : q.dirs.enabled d' with
+        | false => exact Or.inl rfl
+        | true => exact Or.inr (hle c' hc' hi' b' hsb' d' hd')
+      exact ⟨key .N, key .S, key .E, key .W⟩
 
-/-- Non-vacuity on a 3 x 5 raster: area 2 occupies columns 1..3 of all rows; one infected cell at
-    (1, 2); east/west enabled, resolutions 10 (ew) and 30 (ns): distance 10 to the east side. -/
-def exAreas35 : IRaster := ⟨3, 5, [0,2,2,2,0, 0,2,2,2,0, 0,2,2,2,0]⟩
-def exInf35 : IRaster := ⟨3, 5, [0,0,0,0,0, 0,0,4,0,0, 0,0,0,0,0]⟩
-example : specAreaBox exAreas35 2 = some ⟨0, 2, 3, 1⟩ := by decide
-example : specEscaped exInf35 exAreas35 (allCells 3 5) = false := by decide
-example : nearestOK exInf35 exAreas35 (allCells 3 5) ⟨false, false, true, true⟩ 30 10 10 .E = true := by decide
-example : ∀ c ∈ allCells 3 5, 0 ≤ exAreas35.at c.1 c.2 := by decide
-example : exAreas35.rows * 30 < intMax ∧ exAreas35.cols * 10 < intMax := by decide
+/-- Non-vacuity with a NON-integer resolution where rounding order matters (the witness of
+    finding F27): a 52 x 1 raster, one area; the infected cell in row 26 is 26 cells from the north
+    side and 25 cells from the south side; north-south resolution 2/5, sides N and S enabled.
+    Exact distances: north 26 x 2/5 = 52/5 = 10.4, south 25 x 2/5 = 10. The report is (10, S). -/
+def f27Areas : IRaster := ⟨52, 1, List.replicate 52 1⟩
+def f27Inf : IRaster := ⟨52, 1, List.replicate 26 0 ++ [1] ++ List.replicate 25 0⟩
+def f27Dirs : Dirs := ⟨true, true, false, false⟩
+def f27Q : Quarantine := Quarantine.make f27Areas 1 (2/5) 1 f27Dirs
+
+example : specAreaBox f27Areas 1 = some ⟨0, 51, 0, 0⟩ := by decide +kernel
+example : specEscaped f27Inf f27Areas (allCells 52 1) = false := by decide +kernel
+example : sideDist ⟨0, 51, 0, 0⟩ (2/5) 1 (26, 0) .N = 52/5 ∧ sideDist ⟨0, 51, 0, 0⟩ (2/5) 1 (26, 0) .S = 10 := by
+  decide +kernel
+example : nearestCandidates f27Inf f27Areas (allCells 52 1) f27Dirs (2/5) 1 = [(52/5, .N), (10, .S)] := by
+  decide +kernel
+/-- the current code -/
+theorem C18_nearest_witness :
+    (f27Q.action (allCells 52 1) f27Inf f27Areas 0).toOption.map (·.infos) = some [⟨false, .val 10, .S⟩] ∧
+    nearestOK f27Inf f27Areas (allCells 52 1) f27Dirs (2/5) 1 10 .S = true := by
+  decide +kernel
+
+/-- The code BEFORE the fix of finding F27 (`closestDirectionRounded`: running minimum rounded,
+    exact candidate compared with it) on the same witness: north is examined first, 10.4 is stored
+    as 10, the southern 10.0 is not `< 10`, and (10, N) is reported - a side that is not the
+    nearest: the property's predicate is false for the old report. -/
+theorem C18_nearest_old_code_fails :
+    closestDirectionRounded f27Dirs (2/5) 1 26 0 ⟨0, 51, 0, 0⟩ = (10, .N) ∧
+    nearestRounded f27Dirs (2/5) 1 [((26, 0), ⟨0, 51, 0, 0⟩)] none = some (10, .N) ∧
+    nearestOK f27Inf f27Areas (allCells 52 1) f27Dirs (2/5) 1 10 .N = false ∧
+    closestDirection f27Dirs (2/5) 1 26 0 ⟨0, 51, 0, 0⟩ = (10, .S) := by
+  decide +kernel
+
+/-- The second place where the old code compared rounded values: `action` over several infected
+    cells. A 1 x 12 raster, one area, east-west resolution 1/4, sides E and W; infected cells in
+    columns 5 (west side 5/4, east side 6/4) and 7 (west 7/4, east 4/4 = 1). Each cell's own result
+    is right, (1, W) and (1, E) after rounding, but `1 < 1` is false, so the old loop kept (1, W)
+    although the cell in column 7 is nearer to the east side (1 < 5/4). -/
+theorem C18_nearest_old_code_fails_across_cells :
+    nearestRounded ⟨false, false, true, true⟩ 1 (1/4) [((0, 5), ⟨0, 0, 11, 0⟩), ((0, 7), ⟨0, 0, 11, 0⟩)] none
+      = some (1, .W) ∧
+    nearestOK ⟨1, 12, [0,0,0,0,0,3,0,2,0,0,0,0]⟩ ⟨1, 12, List.replicate 12 1⟩ (allCells 1 12)
+      ⟨false, false, true, true⟩ 1 (1/4) 1 .W = false ∧
+    nearestOK ⟨1, 12, [0,0,0,0,0,3,0,2,0,0,0,0]⟩ ⟨1, 12, List.replicate 12 1⟩ (allCells 1 12)
+      ⟨false, false, true, true⟩ 1 (1/4) 1 .E = true ∧
+    (((Quarantine.make ⟨1, 12, List.replicate 12 1⟩ (1/4) 1 1 ⟨false, false, true, true⟩).action (allCells 1 12)
+      ⟨1, 12, [0,0,0,0,0,3,0,2,0,0,0,0]⟩ ⟨1, 12, List.replicate 12 1⟩ 0).toOption.map (·.infos))
+      = some [⟨false, .val 1, .E⟩] := by
+  decide +kernel
+
+/-- Hypotheses of `C18_nearest` on the witness. -/
+example : QFrom f27Q f27Areas 1 ∧ 0 ≤ f27Q.ns ∧ 0 ≤ f27Q.ew ∧
+    (f27Areas.rows : Rat) * f27Q.ns < (dblMax : Rat) ∧ (f27Areas.cols : Rat) * f27Q.ew < (dblMax : Rat) ∧
+    (∃ d, f27Q.dirs.enabled d = true) ∧ (∀ c ∈ allCells 52 1, 0 ≤ f27Areas.at c.1 c.2) :=
+  ⟨C18_qfrom_make _ _ _ _ _, by decide +kernel, by decide +kernel, by decide +kernel, by decide +kernel,
+   ⟨.S, rfl⟩, by decide +kernel⟩
 
 /-! ## Sum and area -/
 
